@@ -230,6 +230,18 @@ func char(s string, position int) string {
 	return c
 }
 
+// numberPattern returns the pattern for number literals. A minus sign only belongs to
+// the literal if no operand precedes it (a-1 is a subtraction, x = -1 a negative literal).
+func numberPattern(tokens []Token) *regexp.Regexp {
+	if length := len(tokens); length > 0 {
+		switch tokens[length-1].tokenType {
+		case IDENTIFIER, NUMBER_LITERAL, STRING_LITERAL, BOOL_LITERAL, NIL_LITERAL, CLOSING_ROUND_BRACKET, CLOSING_SQUARE_BRACKET:
+			return regexp.MustCompile(`^\d+(\.\d+)?`)
+		}
+	}
+	return regexp.MustCompile(`^-?\d+(\.\d+)?`)
+}
+
 func Tokenize(source string) ([]Token, error) {
 	var err error = nil
 	tokens := []Token{}
@@ -312,7 +324,7 @@ func Tokenize(source string) ([]Token, error) {
 			// Create bool token.
 			token = newToken(match, BOOL_LITERAL, ogRow, ogColumn)
 			i += len(match)
-		} else if match := regexp.MustCompile(`^-?\d+(\.\d+)?`).FindString(source[i:]); match != "" {
+		} else if match := numberPattern(tokens).FindString(source[i:]); match != "" {
 			// Create number token.
 			token = newToken(match, NUMBER_LITERAL, ogRow, ogColumn)
 			i += len(match)
